@@ -52,8 +52,8 @@ func TestMain(m *testing.M) {
 			"mapped (secondary) indexes are not generated: only identity indexes (default or prefixed); C04 covers the mapping",
 			"MarkPrefixScanned returns nothing to compare: if the tx commits, the (key, writer tx) tuples of the range at state(id-1) must equal those of state(t) for some t not later than the last precommitted tx observed right after the call",
 			"a step (commit, read) that does not return within 120 s is reported as a failure (all operations take milliseconds)",
-			"known findings (pinned probes, excluded while they fire, counted): " +
-				"K05b a GetWithPrefix answered by an own write that hides a smaller committed key is not failed; K05a (fixed by 7f9fd6d: probe kept as regression, passes ending with own writes are generated again); K05c (fixed in /repo by 5150a30, its probe is kept as a regression: checkPreconditions returned at the first up-to-date snapshot without validating the snapshots of other indexes) is no longer excluded",
+			"findings (pinned probes kept as regressions): " +
+				"K05b (fixed in /repo by 77f54d3: a GetWithPrefix answered by an own write that hides a smaller committed key was not failed; the class is generated and validated again); K05a (fixed by 7f9fd6d: probe kept as regression, passes ending with own writes are generated again); K05c (fixed in /repo by 5150a30, its probe is kept as a regression: checkPreconditions returned at the first up-to-date snapshot without validating the snapshots of other indexes) is no longer excluded",
 			"not implemented from the design: fsim delays on the indexer's reads (the recorder hooks writes only; lag comes from the bulk wait and from reused dumped roots), mapped indexes, UnsafeMVCC",
 		},
 		Probes: []vk.Probe{
